@@ -361,21 +361,70 @@ fn probes(v: &J, qs: &[ast::Request], es: &Entities) -> Result<J, String> {
     Ok(J::Array(out))
 }
 
+/// EST JSON of a policy or template text
+fn est_of_text(text: &str) -> Result<J, String> {
+    match api::Policy::parse(None, text) {
+        Ok(p) => p.to_json().map_err(|e| format!("to_json: {e}")),
+        Err(_) => api::Template::parse(None, text).map_err(|e| format!("init text: {e}"))?.to_json().map_err(|e| format!("to_json: {e}")),
+    }
+}
+
+fn init_to_json(i: &J) -> Result<J, String> {
+    let empty = vec![];
+    let mut statics = serde_json::Map::new();
+    for p in i.get("statics").and_then(|x| x.as_array()).unwrap_or(&empty) {
+        statics.insert(util::s(p, "id")?.to_string(), est_of_text(util::s(p, "text")?)?);
+    }
+    let mut templates = serde_json::Map::new();
+    for p in i.get("templates").and_then(|x| x.as_array()).unwrap_or(&empty) {
+        templates.insert(util::s(p, "id")?.to_string(), est_of_text(util::s(p, "text")?)?);
+    }
+    let mut links = vec![];
+    for l in i.get("links").and_then(|x| x.as_array()).unwrap_or(&empty) {
+        let mut vals = serde_json::Map::new();
+        for kv in l.get("env").and_then(|x| x.as_array()).unwrap_or(&empty) {
+            let k = kv.get(0).and_then(|x| x.as_str()).ok_or("bad slot entry")?;
+            vals.insert(format!("?{k}"), json!({"__entity": kv.get(1).ok_or("bad slot entry")?}));
+        }
+        links.push(json!({"templateId": util::s(l, "template")?, "newId": util::s(l, "id")?, "values": vals}));
+    }
+    Ok(json!({"staticPolicies": statics, "templates": templates, "templateLinks": links}))
+}
+
 fn history_api(v: &J) -> Result<J, String> {
     let qs = requests(v)?;
     let es = util::entities(v.get("entities").ok_or("no entities")?)?;
     let mut universe = universe_of(v);
     let ops = v.get("ops").and_then(|x| x.as_array()).ok_or("no ops")?;
-    // optional start state: PolicySet::from_json_value (EST policy set) instead of the empty set
-    let mut pset = match v.get("init_json") {
+    // optional start state: PolicySet::from_json_value (EST policy set) instead of the empty set;
+    // "init" gives the three sections as texts, the EST JSON is assembled here
+    let assembled = match v.get("init") {
+        Some(i) => Some(init_to_json(i)?),
+        None => v.get("init_json").cloned(),
+    };
+    let mut pset = match assembled.as_ref() {
         Some(j) => match api::PolicySet::from_json_value(j.clone()) {
             Ok(p) => p,
-            Err(e) => return Ok(json!({"init_error": format!("{e:?}").chars().take(300).collect::<String>()})),
+            Err(e) => {
+                let d = format!("{e:?}");
+                let class = if d.contains("Occupied") || d.contains("AlreadyDefined") {
+                    "occupied".to_string()
+                } else if d.contains("ArityError") {
+                    "arity".to_string()
+                } else if d.contains("NoSuchTemplate") {
+                    "no_such_template".to_string()
+                } else if d.contains("PolicyIdConflict") {
+                    "id_conflict".to_string()
+                } else {
+                    format!("from_json:{}", d.chars().take(200).collect::<String>())
+                };
+                return Ok(json!({"init_error": class}));
+            }
         },
         None => api::PolicySet::new(),
     };
     let mut out = vec![];
-    if v.get("init_json").is_some() {
+    if assembled.is_some() {
         let core: &ast::PolicySet = pset.as_ref();
         out.push(json!({"result": "init", "renaming": J::Null, "api": dump_api(&pset, &universe),
                         "ast": dump_ast(core, &universe), "responses": respond(core, &qs, &es),
